@@ -806,3 +806,30 @@ impl Schedule {
     }
 }
 // modifying methods are located in schedule_modifications.rs
+
+// verification hooks: read-only access to internals that the public API exposes only as counts
+#[cfg(feature = "rssched_verif")]
+impl Schedule {
+    /// depot usage as sorted (depot, type, spawned, despawned) entries, and the id counter
+    #[allow(clippy::type_complexity)]
+    pub fn verif_internals(
+        &self,
+    ) -> (
+        Vec<(DepotIdx, VehicleTypeIdx, Vec<VehicleIdx>, Vec<VehicleIdx>)>,
+        usize,
+    ) {
+        let mut usage: Vec<_> = self
+            .depot_usage
+            .iter()
+            .map(|((depot, vehicle_type), (spawned, despawned))| {
+                let mut s: Vec<VehicleIdx> = spawned.iter().copied().collect();
+                s.sort();
+                let mut d: Vec<VehicleIdx> = despawned.iter().copied().collect();
+                d.sort();
+                (*depot, *vehicle_type, s, d)
+            })
+            .collect();
+        usage.sort();
+        (usage, self.vehicle_counter)
+    }
+}
